@@ -784,3 +784,33 @@ func exprIdentity(info *types.Info, e ast.Expr) string {
 	w(e)
 	return sb.String()
 }
+
+// singleDef resolves an identifier that names a local assigned exactly once
+// in body to the expression it was assigned; any other expression is returned
+// as it is. `xs := f(); for _, x := range xs` and `for _, x := range f()` then
+// look the same to a rule that asks what is being ranged over.
+func singleDef(info *types.Info, body ast.Node, e ast.Expr) ast.Expr {
+	id, ok := ast.Unparen(e).(*ast.Ident)
+	if !ok {
+		return e
+	}
+	o := info.Uses[id]
+	if v, isVar := o.(*types.Var); !isVar || v.IsField() {
+		return e
+	}
+	var defs []ast.Expr
+	ast.Inspect(body, func(n ast.Node) bool {
+		if as, ok := n.(*ast.AssignStmt); ok && len(as.Lhs) == len(as.Rhs) {
+			for i, l := range as.Lhs {
+				if objOf(info, l) == o {
+					defs = append(defs, as.Rhs[i])
+				}
+			}
+		}
+		return true
+	})
+	if len(defs) == 1 {
+		return ast.Unparen(defs[0])
+	}
+	return e
+}
